@@ -190,6 +190,18 @@ CHECKS = {
         note="Pre-connected socket pairs are exempt by the statement; a validator raising Pyro's ConnectionClosedError is treated as 'peer went away' by the daemon.",
         design_ref="DESIGN.md section 3 C08",
     ),
+    "C05": dict(
+        engine="N+T",
+        technique="exhaustive enumeration of structure-aware hostile byte streams x phases x endings x server configurations on the real request loop, with bounded exhaustive interleaving of attacker, witness and fresh client",
+        text="About 150 hostile streams (every header field of a valid CONNECT and INVOKE at boundary values, inconsistent length fields, every truncation at field boundaries, "
+             "garbage payloads, semantically hostile invokes such as unknown objects/members and methods raising unserialisable Exception subclasses, raw garbage, an HTTP "
+             "request) are sent as first bytes or after a valid handshake and ended by close, reset or read-then-close, against the multiplex and thread-pool server with and "
+             "without COMMTIMEOUT and with a pool of one held by the witness. Every stream runs under the default schedule; a representative subset (quick) or all "
+             "(thorough) under every schedule with one preemption / 1-2 reorderings of attacker, witness and a later fresh client. Oracle: the witness receives exactly its "
+             "three tokens, the fresh client is served, the loop thread lives, busy/idle sets resp. the selector map return to their idle shape.",
+        note="Hostile bytes arrive in whole writes; a partial message legitimately keeps a single-threaded multiplex server waiting until the peer disconnects or COMMTIMEOUT fires.",
+        design_ref="DESIGN.md section 3 C05",
+    ),
 }
 
 NOT_YET = {}
